@@ -20,6 +20,7 @@ from vlib.xl import compile_spec, exc_key
 
 SHEET = 'S'
 SHEET2 = 'T 2'          # needs quoting
+SHEET3 = 'Off'         # its used area starts at C3, not at A1
 INSHEET = 'In (2) & v1.2+%'     # legal in Excel, hostile to regexes
 COLS = 'ABCD'
 NROWS = 6
@@ -285,6 +286,13 @@ def specs(draw, max_formulas=14, with_arrays=True, with_names=True,
             sheets[SHEET2][f'A{r}'] = make_formula(SHEET2, NROWS + 1, 0)
             formulas.append(f'{SHEET2}!A{r}')
 
+    # a sheet whose used area does not start at A1
+    if with_second_sheet and draw(st.integers(0, 4)) < 2:
+        sheets[SHEET3] = {}
+        for coord in ('C3', 'D3', 'C5')[:draw(st.integers(1, 3))]:
+            sheets[SHEET3][coord] = make_formula(SHEET3, NROWS + 1, 0)
+            formulas.append(f'{SHEET3}!{coord}')
+
     # array formulas reference rows above them only; formulas in rows above an
     # array block never reference it because of the rank rule.  But formulas
     # that reference a rectangle overlapping an array block *partially* are
@@ -296,7 +304,7 @@ def specs(draw, max_formulas=14, with_arrays=True, with_names=True,
 
 def _rank(addr):
     sheet, coord = addr.rsplit('!', 1)
-    order = {SHEET: 1, SHEET2: 2}.get(sheet, 0)
+    order = {SHEET: 1, SHEET2: 2, SHEET3: 3}.get(sheet, 0)
     col = ord(coord[0]) - 65
     return order, int(coord[1:]), col
 
